@@ -78,7 +78,8 @@ def run(ctx: Context) -> None:
 
 # ---------------------------------------------------------------------- small helpers
 def _undecided(t) -> bool:
-    return contains(t, lambda s: s[0] in ("unknown", "phi", "loopvar"))
+    # (a phi is a resolved, multi-valued term: some path yields each alternative, so a mismatch on it is a real mismatch)
+    return contains(t, lambda s: s[0] in ("unknown", "loopvar"))
 
 
 def _judge(ck, rule, ok, terms, desc, key, msg, loc, witness=None) -> bool:
@@ -1090,16 +1091,25 @@ def _k1_routing(ctx: Context) -> int:
             reach = cfg.reachable_from(d)
             ck.check("C18.K1", not any(n.id in reach for n, _c in notif_calls), f"_device_detected: after a parse error ({e}) no pairing is notified",
                      f"{fk}:parse-error-continues", "_device_detected: a parse error still reaches _async_notification", ctx.loc(f, cfg.nodes[d]))
-    if len(notif_calls) != 1:
-        ck.unknown("C18.K1", f"_device_detected: expected one _async_notification call, found {len(notif_calls)}", f.loc())
+    if not notif_calls:
+        ck.unknown("C18.K1", "_device_detected: no _async_notification call found", f.loc())
         return 3
-    nn, nc = notif_calls[0]
     selfp = f.pos_params[0]
-    recv = T.of(cfg, nn, nc.func.value) if isinstance(nc.func, ast.Attribute) else ("unknown", "receiver")
     want = ("call", ("attr", _self_attr(selfp, "pairings"), "get"), (("attr", strip_sites(P), "id"),), ())
-    _judge(ck, "C18.K1", strip_sites(recv) == want and contains(recv, lambda s: s == P), [recv],
-           "_device_detected: the notification is routed to pairings.get(<id parsed from this notification>)", f"{fk}:routing",
-           f"_device_detected: the notification is delivered to {show(recv, 160)}", ctx.loc(f, nn))
+    for nn, nc in notif_calls:
+        recv = T.of(cfg, nn, nc.func.value) if isinstance(nc.func, ast.Attribute) else ("unknown", "receiver")
+        alts = list(recv[1]) if recv[0] == "phi" else [recv]
+        bad_alts = [a for a in alts if strip_sites(a) != want]
+        # every pairing that can receive the notification was looked up by the id parsed from THIS notification: a fallback
+        # route (by address, by name, the only pairing, ...) lets a notification that names a foreign advertising id reach a
+        # pairing, which then authenticates it with that foreign id as associated data
+        if bad_alts and any(_undecided(a) for a in bad_alts):
+            ck.unknown("C18.K1", f"_device_detected: receiver of the notification not resolved ({show(recv, 120)})", ctx.loc(f, nn))
+        else:
+            ck.check("C18.K1", not bad_alts, "_device_detected: the notification is routed to pairings.get(<id parsed from this notification>)", f"{fk}:routing",
+                     f"_device_detected: the notification can be delivered to {show(strip_sites(bad_alts[0]), 160) if bad_alts else ''}: a pairing not selected by the "
+                     "advertising id carried in the notification", ctx.loc(f, nn))
+    nn, nc = notif_calls[0]
     arg = T.of(cfg, nn, nc.args[0]) if nc.args else ("unknown", "no argument")
     _judge(ck, "C18.K1", arg == P, [arg], "_device_detected: the pairing receives the parsed notification itself", f"{fk}:routing-argument",
            f"_device_detected: _async_notification receives {show(arg, 120)}", ctx.loc(f, nn))
@@ -1205,6 +1215,15 @@ def _k1_from_bytes(ctx: Context) -> int:
                             v = (o[1] == fmt) == (op == "Eq")
                     elif op in ("In", "NotIn") and l == fmt_t and r[0] in ("tuple", "set", "list") and all(x[0] == "const" for x in r[1]):
                         v = (fmt in [x[1] for x in r[1]]) == (op == "In")
+                    else:
+                        # tests on the number of value bytes: the broadcast value field is always VALUE_FIELD_BYTES wide
+                        # (the caller's slice plaintext[4:12] is checked separately), so they are decided by that constant
+                        lenv = ("call", ("glob", "len"), (("param", valp),), ())
+                        a, b2 = (l, r) if l == lenv else (r, l) if r == lenv else (None, None)
+                        if a is not None and b2[0] == "const" and isinstance(b2[1], int):
+                            w = 8
+                            opn = op if l == lenv else {"Lt": "Gt", "Gt": "Lt", "LtE": "GtE", "GtE": "LtE"}.get(op, op)
+                            v = {"Eq": w == b2[1], "NotEq": w != b2[1], "Lt": w < b2[1], "LtE": w <= b2[1], "Gt": w > b2[1], "GtE": w >= b2[1]}.get(opn)
                 if v is None:
                     return None
                 nxt = [d for (d, l, _e) in n.succ if l == ("T" if v else "F")]
